@@ -9,7 +9,7 @@ def queries(tier):
     qs = []
     for nh in (1, 2):
         for (nau, nbu, op, gb) in [(1, 0, 0, 0), (2, 0, 0, 1), (2, 0, 1, 0), (1, 1, 1, 0), (1, 1, 1, 1), (2, 1, 2, 0), (1, 0, 3, 0)]:
-            if tier == 'quick' and nh == 2 and (nau, nbu, op, gb) not in ((2, 0, 1, 0), (1, 1, 1, 0)): continue
+            if tier == 'quick' and nh == 2: continue    # two hash functions: 300-900 s per query, thorough only
             qs.append(Q(f'bf_nh{nh}_a{nau}_b{nbu}_op{op}_g{gb}', 'bloom', 'c15_bloom.c', defs=dict({'NH': nh, 'NAU': nau, 'NBU': nbu, 'OP': op, 'GETBITS': gb, 'HM_MAX': 12}, **({'LIGHT': None} if (op != 0 or nau > 1) else {})), tu_defs={'VERIF_STUB_HASH': None},
                         unwind=12, unwindset={'^(harness|popc|verif_hash128|hm_key_u64|verif_mem.*|verif_new.*)$': 70}, timeout=(300 if tier == 'quick' else 1500), native_vectors=200, c_defs={'VERIF_NEW_CAPN': 64}, mem_gb=(10 if tier == 'quick' else 28)))
     return qs
